@@ -60,7 +60,8 @@ COMPONENTS = ['vf_fixtures.RC0', 'vf_fixtures.RC1', 'vf_fixtures.RC2',
               'vf_fixtures.RC3', 'vf_fixtures.RC4', 'vf_fixtures.RC5',
               'vf_fixtures.sub.Klass.Inner', 'vf_fixtures.sub.Klass.Plain']
 PROCESSORS = ['vf_fixtures.RP0', 'vf_fixtures.RP1', 'vf_fixtures.RP2',
-              'vf_fixtures.RP3', 'vf_fixtures.RP4']
+              'vf_fixtures.RP3', 'vf_fixtures.RP4', 'vf_fixtures.RPD',
+              'vf_fixtures.RPDD']
 PASSTHROUGH = ['x ${vf_fixtures.OBJ_A}', '$ {a}', '$${a}', ' $res{a}',
                'res{a}', '$', '${', '$handle', 'cost: 5$', '#${}', '$RES{a}',
                '']
@@ -144,8 +145,15 @@ def gen_one(rng, tier, index):
         where = rng.choice(['world', 'worlds/level1', 'x/y/z/world'])
     else:
         where = None
+    # decoys: the same relative paths also exist below the map that holds the
+    # world handle (references are resolved from the ROOT of the tree)
+    decoys = []
+    if where and '/' in where and rng.random() < 0.5:
+        prefix = where.rsplit('/', 1)[0]
+        decoys = [f'{prefix}/{p}' for p in tree_paths
+                  if rng.random() < 0.7]
     return {'from_file': from_file, 'tree': tree_paths, 'where': where,
-            'desc': desc}
+            'desc': desc, 'decoys': decoys, 'reload': rng.random() < 0.3}
 
 
 def gen_cases(tier, seed):
@@ -200,14 +208,20 @@ def _run(case, desper, fx, res, tmp):
     class RH(desper.Handle):
         def __init__(self, path):
             self.path = path
-            self.obj = ['loaded', path]
+            self.n = 0
 
         def load(self):
+            self.n += 1
+            self.obj = ['loaded', self.path, self.n]
             return self.obj
 
     for p in case['tree']:
         handles[p] = RH(p)
         root[p] = handles[p]
+        handles[p]()
+    for p in case.get('decoys', []):
+        root[p] = RH('decoy:' + p)
+        res.tags['decoys'].add(True)
 
     stats = {'kinds': set(), 'dollar': False}
 
@@ -375,6 +389,44 @@ def _run(case, desper, fx, res, tmp):
                      ['on_add', 'on_world_load'],
                      [[e[0], repr(e[2])] for e in mine])
                 return
+    # ---- loading the same handle again gives a world built afresh
+    if case.get('reload') and case['from_file']:
+        first_objects = [e[1] for e in fx.LOG if e[0] == 'new']
+        for h in handles.values():
+            h.clear()
+            h()                      # resources are new objects now
+        mark = len(fx.LOG)
+        handle.clear()
+        try:
+            world2 = handle()
+        except Exception as ex:
+            fail('load-raised', 'second load of the same handle raised',
+                 'a world', repr(ex)[-300:])
+            return
+        res.stats['reloads_checked'] += 1
+        specs = listed + [c for ent in desc.get('entities', [])
+                          for c in ent.get('components', [])]
+        again = [e for e in fx.LOG[mark:] if e[0] == 'new']
+        if len(again) != len(specs):
+            fail('extra-construction', 'objects constructed by the second '
+                 'load', len(specs), len(again))
+            return
+        for entry, old, spec in zip(again, first_objects, specs):
+            obj = entry[1]
+            if type(obj) is not resolve(spec['type']) or not check_call(
+                    obj, spec, 'second load: ' + type(obj).__name__):
+                if not res.divs:
+                    fail('constructor-arguments', 'second load built objects '
+                         'in another order', spec['type'],
+                         type(obj).__name__)
+                return
+            for a, b in zip(obj.args, old.args):
+                if isinstance(a, (list, dict)) and a is b \
+                        and not str(a).startswith("['loaded'"):
+                    fail('shared-mutable-argument', 'a mutable argument of '
+                         'the description is shared between two loads of '
+                         'the same handle', 'fresh copy', repr(a))
+                    return
     res.nontrivial = (len(want_entities) >= 2 and len(stats['kinds']) >= 2
                       and stats['dollar']) or (
         not case['from_file'] and len(want_entities) >= 2 and stats['dollar'])
